@@ -6,12 +6,15 @@ parse_if_range_header, parse_range_header, is_byte_range_valid}`, `datastructure
 (`_is_range_request_processable`, `_process_range_request`, `make_conditional`, the body choice of
 `get_app_iter`) and `wsgi._RangeWrapper`, all as repaired by f11af11 / 3e1f661 / 64fcb6a / 84dd3fe / a63ec67.
 
-Opaque (validated by the streams, not verified): `parse_date` (the harness supplies the parsed
-instant of every date header as integer epoch seconds), `str.lower()` (ASCII only), the file
+`parse_date`: the decision functions take parsed instants (any origin; the harness supplies epoch
+seconds for arbitrary date notations); for IMF-fixdate text (`http_date` output) the text-level
+wrappers `mkReqText` / `mkRespText` use C06's `Date.parseDate` (instants counted from 0001-01-01),
+so nothing is opaque on that layout. Opaque otherwise (validated by the streams, not verified): `str.lower()` (ASCII only), the file
 object behind a `FileWrapper` (modelled as "blocks of at most `buffer_size` bytes, never empty").
 Own small parsers for etags / ranges (C06's codec model is not used).
 -/
 import WzVerif.Util.Py
+import WzVerif.Model.Date
 namespace Wz.Cond
 open Wz
 
@@ -391,6 +394,8 @@ structure WsgiOut where
   contentRange : Option (Int × Int × Int)
   contentLength : Option Int
   body : List Bytes
+  /-- `Accept-Ranges: bytes` present (set by `_process_range_request` on success only) -/
+  acceptRanges : Bool := false
 deriving Repr, DecidableEq
 
 def respond (method : Str) (q : CondReq) (r : RespIn) (completeLength : Option Int)
@@ -407,12 +412,27 @@ def respond (method : Str) (q : CondReq) (r : RespIn) (completeLength : Option I
       match seekable with
       | some bs => rangeWrapSeek chunks.flatten bs start len
       | none => rangeWrapIter chunks start len
-    some ⟨206, some (a, b - 1, completeLength.getD 0), some (b - a), if isHead then [] else body⟩
+    some ⟨206, some (a, b - 1, completeLength.getD 0), some (b - a), if isHead then [] else body, true⟩
   | some (st, _) =>
-    if st == 304 then some ⟨304, none, none, []⟩
+    if st == 304 then some ⟨304, none, none, [], false⟩
     else
       let isGetHead := method == ['G', 'E', 'T'] || isHead
       some ⟨st, none, if kind == 0 || (kind == 1 && isGetHead) then some total else none,
-        if isHead then [] else chunks.filter (!·.isEmpty)⟩
+        if isHead then [] else chunks.filter (!·.isEmpty), false⟩
+
+/-! ## date headers as text (IMF-fixdate, C06's model) -/
+
+/-- `parse_date(text)` on the IMF-fixdate layout, as an instant counted from 0001-01-01 -/
+def dateOfText (v : Option Str) : Option Int :=
+  v.bind fun s => (Date.parseDate s).map Int.ofNat
+
+/-- a request whose date headers are given as header text -/
+def mkReqText (range ifRange ims inm im : Option Str) : CondReq :=
+  { range := range, ifRange := ifRange, ifRangeDate := dateOfText ifRange, ims := dateOfText ims,
+    inm := inm, im := im }
+
+/-- a response whose `Last-Modified` header is given as header text -/
+def mkRespText (etag lastModified : Option Str) : RespIn :=
+  { etag := etag, lastModified := dateOfText lastModified }
 
 end Wz.Cond
